@@ -136,12 +136,28 @@ static void gen_prog(u64 seed, std::vector<i64> &out) {
     unsigned np = 1 + r.below(4), nsub = r.below(np + 1); if (r.chance(1, 2) && nsub == 0) nsub = 1;
     unsigned numUser = r.below(3);
     std::vector<PassDef> passes;
+    // "forest" programs (half of them): the passes share a few match sequences over a 3-letter alphabet, so later passes meet the
+    // slots earlier passes attached, and actions are mostly attachments: clusters with several children, re-attachment, deep chains
+    const bool forest = r.chance(1, 2);
+    std::vector<std::vector<unsigned>> shared;
+    if (forest) { unsigned ns = 1 + r.below(3); for (unsigned q = 0; q < ns; ++q) { std::vector<unsigned> m; unsigned len = 2 + r.below(3); for (unsigned z = 0; z < len; ++z) m.push_back(1 + r.below(3)); shared.push_back(m); } if (np < 2) np = 2; }
     for (unsigned i = 0; i < np; ++i) {
         PassDef pd; pd.maxloop = r.chance(1, 4) ? 1 + r.below(3) : 5 + r.below(10);
         unsigned nr = 1 + r.below(4);
         for (unsigned k = 0; k < nr; ++k) {
             RuleDef rd; unsigned len = 1 + r.below(3);
-            for (unsigned q = 0; q < len; ++q) rd.match.push_back(1 + r.below(r.chance(1, 2) ? 3 : ALPHA));
+            if (forest && r.chance(3, 4)) { rd.match = shared[r.below(u32(shared.size()))]; len = unsigned(rd.match.size()); }
+            else for (unsigned q = 0; q < len; ++q) rd.match.push_back(1 + r.below(r.chance(1, 2) ? 3 : ALPHA));
+            if (forest && r.chance(2, 3)) {
+                // every slot but one attaches to some other slot of the rule (mostly to one common parent), now and then something else happens too
+                unsigned parent = r.below(len);
+                for (unsigned sl = 0; sl < len; ++sl) {
+                    if (sl != parent || r.chance(1, 6)) { int tgt = r.chance(3, 4) ? int(parent) : int(r.below(len)); w8(rd.action, PUSH_BYTE); w8(rd.action, u8(i64(tgt - int(sl)))); w8(rd.action, ATTR_SET_SLOT); w8(rd.action, 2); }
+                    if (i < nsub && r.chance(1, 10)) { if (r.chance(1, 2)) { w8(rd.action, PUT_COPY); w8(rd.action, u8(i64(int(r.below(len)) - int(sl)))); } else { w8(rd.action, DELETE); } }
+                    w8(rd.action, NEXT);
+                }
+                w8(rd.action, RET_ZERO);
+            } else
             gen_action(r, len, i < nsub, rd.action, numUser);
             if (!getenv("SYN_NOCONS") && r.chance(1, 5)) { rd.constraint = {PUSH_SLOT_ATTR, 0, 0, PUSH_SHORT, 0x01, 0x00, 22 /*GTR*/, POP_RET}; }
             pd.rules.push_back(rd);
